@@ -70,10 +70,10 @@ CHECKS = {
 
 # clauses added after the fourth seeding round: (technique suffix, text suffix)
 EXTRA = {
- "C03": ("; loop-fresh decode targets over x/did", " Code that decodes stored documents in a loop (listing, export, migration) uses a fresh target per iteration."),
+ "C03": ("; loop-fresh decode targets over x/did; shape of GetSignBytes per message", " Code that decodes stored documents in a loop (listing, export, migration) uses a fresh target per iteration. GetSignBytes of every DID message is the sorted amino JSON of the whole message."),
  "C07": ("; path-condition audit of the send", " The send is skipped only when the spendable amount is empty or the address parameter does not parse: no other condition stands on the way."),
- "C08": ("; alias-aware write enumeration on the export call tree; raw-input flow in hand-written JSON decoders", " Nothing on an ExportGenesis call tree writes memory that outlives the call (also through struct copies of package variables that share maps); hand-written UnmarshalJSON methods take values only from the JSON library."),
- "C09": ("; type walk for protobuf maps at binary-marshal sites; context-free calls on held foreign objects; non-persistent store keys", " No binary encoding of a map-carrying message, no Context-less call on an object implemented outside the module other than the reviewed codecs/subspace table, and no memory/transient store in block processing."),
+ "C08": ("; alias-aware write enumeration on the export call tree; raw-input flow in hand-written JSON decoders; constant-offset slices of Iterator.Key() in package app; separator language", " Nothing on an ExportGenesis call tree writes memory that outlives the call (also through struct copies of package variables that share maps); hand-written UnmarshalJSON methods take values only from the JSON library. Package app cuts no field out of a foreign store key by hand (finding F15, repaired); the genesis key separator occurs in no key component."),
+ "C09": ("; type walk for protobuf maps at binary-marshal sites; context-free calls on held foreign objects; non-persistent store keys; typestate of sync.Pool objects (reset discipline)", " No binary encoding of a map-carrying message, no Context-less call on an object implemented outside the module other than the reviewed codecs/subspace table, and no memory/transient store in block processing. A pooled object is reset after Get or handed back reset on every path."),
  "C10": ("; context-free calls on held foreign objects", " Objects implemented outside the module are consulted with a Context (reviewed exceptions: codecs, params subspace table)."),
  "C12": ("; loop-fresh decode targets over x/pnft", " Listings decode each token's metadata into a fresh variable."),
  "C14": ("; definite-write analysis of message entry points (receiver-reachable memory)", " ValidateBasic/GetSigners/GetSignBytes/Route/Type perform no definite write into memory reachable from the message (stores, map updates, append onto re-sliced message slices, in-place sorts, through module callees)."),
@@ -81,6 +81,14 @@ EXTRA = {
  "C16": ("; who-may-call of the SDK address configuration", " No custom address verifier is installed and the account prefix is the constant panacea (the SDK's own format check defines a well-formed address)."),
  "C19": ("; dominance in InitChainer", " InitChainer stores the module manager's version map through the upgrade keeper before the modules' InitGenesis."),
  "C20": ("; non-persistent store keys", " The module's keepers receive no memory/transient store key (such stores are not versioned by query height)."),
+ "C02": ("; shape of GetSignBytes per message", " GetSignBytes of every AOL message is the sorted amino JSON of the whole message (the authorising signature covers topic, writer and owner)."),
+ "C04": ("; genesis import loop shape and stored-entry provenance; constructor-field landing of the store key", " Genesis import stores every entry (tombstones included) whole under its own key; the did store key lands in the keeper field the KV store is opened with."),
+ "C05": ("; proof-body rules (key-type gate, decoded key, verify sequence passed through)", " The proof hands back the verifier's seq+1 on every path (a tombstone differs from 'absent' only by its non-zero sequence)."),
+ "C06": ("; shape of GetSignBytes per message; sibling agreement of token views", " GetSignBytes of every PNFT message is the sorted amino JSON of the whole message; every token view reports the stored owner record of that very token."),
+ "C11": ("; genesis import loop shape and stored-entry provenance", " Genesis import stores every entry whole under the very key it was exported under."),
+ "C13": ("; provenance of the page request", " The pager is given the request's own Pagination, untouched."),
+ "C17": ("; blocked-address evaluation", " The burn module account's address stays blocked (otherwise auth.GetModuleAccount panics in every block)."),
+ "C18": ("; provenance of exported key strings; definite-write analysis of key decoders", " Exported genesis keys are compkey.EncodeToString(key, separator) and DecodeFromString splits with the separator handed in; FromByteSlices/FromStrings never write into storage the receiver's slices already have."),
 }
 
 PENDING_REASON = "check not built yet in this round (planned per DESIGN.md section 4); no claim is made until the checker rule exists"
